@@ -51,11 +51,11 @@ def scenario(variant, tier):
                                       empty_b=sym.flag("empty_b")))
             if junk:
                 patterns = ["*.tmp"]
-        fs0 = sym.choose("fmt0", FORMATSETS[:2] if tier == "quick" else FORMATSETS)
+        fs0 = sym.choose("fmt0", FORMATSETS[:2] if tier == "quick" else FORMATSETS[:3])
         r = b.run("create", root="R", h=fs0, i=patterns)
         b.require(r.exit == 0 and r.exc is None, "seal-exit-0", "%s" % r)
         if sym.flag("second_gen"):
-            fs1 = sym.choose("fmt1", FORMATSETS[:2] if tier == "quick" else FORMATSETS)
+            fs1 = sym.choose("fmt1", FORMATSETS[:2] if tier == "quick" else FORMATSETS[1:3])
             r = b.run("create", root="R", h=fs1)
             b.require(r.exit == 0 and r.exc is None, "unchanged-create-exit-0", "second generation: %s" % r)
         files = sorted(f for f in t.files if not f.endswith(".tmp"))
